@@ -289,6 +289,19 @@ static void gen(rng &r, const std::string &tier)
     puts("sizes");
     puts("premain");
     gen_sessions(r, th);
+    // capacities 255 / 256 / 257 with a payload that fits exactly (n = cap - 2) and one that is a byte too long,
+    // twice in a row on the same receiver object; configurable (v1, v0) and legacy
+    {
+        alphabet v1 = alpha_of(gstuff_context()), v0 = alpha_of(gstuff_context_v0()), lg = alpha_leg();
+        for (int cap : {255, 256, 257})
+            for (int n : {cap - 2, cap - 1})
+            {
+                std::string head = "seq " + std::to_string(2 * n + 4) + " 260";
+                printf("%s N I%d E%s F F\n", head.c_str(), cap, hex(rnd_payload(r, v1, (size_t)n)).c_str());
+                printf("%s A%s N S%d E%s F F\n", head.c_str(), alpha_hex(v0).c_str(), cap, hex(rnd_payload(r, v0, (size_t)n)).c_str());
+                printf("%s G%s ls%d lf lf\n", head.c_str(), hex(rnd_payload(r, lg, (size_t)n)).c_str(), cap);
+            }
+    }
     for (auto c : {"v1", "v0", "leg"})
     {
         printf("longnoise %s %d %d %d\n", c, (int)r.range(4, 40), 307200 + (int)r.below(64), (int)r.below(1000000));
